@@ -278,15 +278,29 @@ def independent_eval(f, x, t):
     return v, math.fsum(abs(z) for z in terms)
 
 
-def independent_loss(f, points):
-    tot = []
+def independent_loss(f, points, with_error=False):
+    """Squared error on the points, and (optionally) a bound on how far two correct evaluations of it can
+    differ: f is known to relative (1e-12 + 16 eps * sum|exponent terms|), the residuals are small
+    differences of nearly equal numbers, so the bound is sum(2 |r| d + d^2) with d = |f| * that relative error."""
+    eps = 2.220446049250313e-16
+    tot, err = [], []
     for (x, t, p) in points:
-        v, _ = independent_eval(f, x, t)
-        tot.append((v - p) ** 2)
+        v, mag = independent_eval(f, x, t)
+        r = v - p
+        tot.append(r ** 2)
+        if with_error and not (math.isinf(v) or v != v):
+            d = abs(v) * (1e-12 + 16 * eps * mag)
+            err.append(2 * abs(r) * d + d * d)
     try:
-        return math.fsum(tot)
+        loss = math.fsum(tot)
     except (OverflowError, ValueError):
-        return math.inf
+        loss = math.inf
+    if with_error:
+        try:
+            return loss, math.fsum(err)
+        except (OverflowError, ValueError):
+            return loss, math.inf
+    return loss
 
 
 class Executor:
@@ -423,7 +437,7 @@ class Executor:
                 pts = self.spec["measurements"][lp].get("points")
                 if pts is None:
                     pts = [[plain(m.x), plain(m.t), plain(m.p)] for m in self.W.measurements[lp].data]
-                d["loss"] = independent_loss(res, pts)
+                d["loss"], d["loss_err"] = independent_loss(res, pts, with_error=True)
                 d["n_points"] = len(pts)
             d["fn"] = build.view_fn(res)
         if fn == "fit_vle" and op.get("objective_on") is not None:
